@@ -177,3 +177,38 @@ def sortedContains (v elems : List Nat) : Option Bool :=
   else containsLoop v elems (elems.length + 1) 0 0
 
 end AITB.CursorUtil
+
+/-! ## specifications used by the driver's clauses on the implementation's own outputs -/
+namespace AITB.CursorUtil
+
+/-- all `k`-element sublists of a list, in lexicographic order of positions: the subsets a `SubsetEnumerator` must visit -/
+def combos : Nat → List Nat → List (List Nat)
+  | 0, _ => [[]]
+  | _+1, [] => []
+  | k+1, a :: t => (combos k t).map (a :: ·) ++ combos (k+1) t
+
+/-- strictly increasing -/
+def strictSorted : List Nat → Bool
+  | a :: b :: t => a < b && strictSorted (b :: t)
+  | _ => true
+
+/-- `out` is the sorted duplicate-free union of `l` and `r` -/
+def isSortedUnion (out l r : List Nat) : Bool :=
+  strictSorted out && out.all (fun x => l.contains x || r.contains x) && (l ++ r).all out.contains
+
+/-- `lowest` returned by the advance that led from `prev` to `cur`: leftmost changed slot -/
+def lowestOk (prev cur : List Nat) (low : Nat) : Bool :=
+  prev.take low == cur.take low && prev[low]? != cur[low]? && low < cur.length
+
+/-- `veccmpSmall` / `veccmpGeneral` over exact rationals, `eq` = the tolerance predicate: -1 / 0 / 1 -/
+def veccmpTol (eq : Rat → Rat → Bool) : List Rat → List Rat → Int
+  | a :: x, b :: y => if eq a b then veccmpTol eq x y else if a < b then -1 else 1
+  | _, _ => 0
+
+/-- `max_element_unary`: index and value of the FIRST maximum (strict `>` update), `(len, 0)` on an empty range -/
+def maxElementUnary (vals : List Rat) : Nat × Rat :=
+  match vals with
+  | [] => (0, 0)
+  | v :: t => (t.foldl (fun (acc : Nat × Nat × Rat) x => let (i, bi, bv) := acc; if x > bv then (i+1, i, x) else (i+1, bi, bv)) (1, 0, v)).2
+
+end AITB.CursorUtil
